@@ -572,8 +572,7 @@ func (ex *Exec) step(fr *Frame, ins ssa.Instruction) {
 		o := ex.newObject(av, "makeslice@"+ex.curPos(), nil)
 		fr.locals[x] = &SliceV{Arr: o, Len: int(n.SignedVal()), Cap: int(c.SignedVal())}
 	case *ssa.MakeMap:
-		ex.nextObj++
-		mv := &MapV{ID: ex.nextObj, Entries: map[string]*mapEntry{}}
+		mv := &MapV{ID: ex.freshID(), Entries: map[string]*mapEntry{}}
 		ex.allMaps = append(ex.allMaps, mv)
 		fr.locals[x] = mv
 	case *ssa.MakeChan:
@@ -581,8 +580,7 @@ func (ex *Exec) step(fr *Frame, ins ssa.Instruction) {
 		if !sz.IsConst() {
 			panic(unsupported("make(chan, symbolic)"))
 		}
-		ex.nextObj++
-		cv := &ChanV{ID: ex.nextObj, Cap: int(sz.SignedVal()), Elem: x.Type().Underlying().(*types.Chan).Elem(), Label: "chan@" + ex.curPos()}
+		cv := &ChanV{ID: ex.freshID(), Cap: int(sz.SignedVal()), Elem: x.Type().Underlying().(*types.Chan).Elem(), Label: "chan@" + ex.curPos()}
 		ex.allChans = append(ex.allChans, cv)
 		fr.locals[x] = cv
 	case *ssa.MapUpdate:
@@ -608,6 +606,16 @@ func (ex *Exec) step(fr *Frame, ins ssa.Instruction) {
 	default:
 		panic(unsupported(fmt.Sprintf("SSA instruction %T", ins)))
 	}
+}
+
+// freshID numbers maps / channels; in concurrent mode the numbering is per thread so that
+// identities created by different isolated thread runs never collide.
+func (ex *Exec) freshID() int {
+	ex.nextObj++
+	if ex.conc.active() {
+		return ex.conc.curThread*1000000 + ex.nextObj
+	}
+	return ex.nextObj
 }
 
 func (ex *Exec) inBounds(idx *Term, n int) *Term {
